@@ -31,7 +31,9 @@ class C03(Prop):
             "non-ASCII, NUL), 0..12 labels with the lengths 0,1,2,3,7,8,9,12 favoured (1 in 40 groups: 21..40 labels over three names, all values different), both with pairwise distinct label names and "
             "with repeated names/labels; each key built through a random constructor (from_name, From<name>, from_parts with "
             "Vec / slice::Iter / &[(String,String)], From<(name,labels)>, from_static_name/parts/labels), random string flavours "
-            "(static, owned, Arc), random split into with_extra_labels calls (incl. empty), random clone/get_hash calls; a case is "
+            "(static, owned, owned with spare capacity, Arc, case-wide shared Arc; in half of the groups also sub-slices of ONE static buffer of the group, preferring equal start "
+            "addresses with different lengths and repeating texts at two addresses, and constructor label lists taken as sub-slices of ONE static "
+            "label slice; plus a directed family of 82 such groups), random split into with_extra_labels calls (incl. empty), random clone/get_hash calls; a case is "
             "non-trivial if two different keys of it share the name and have >= 1 label; distinct = distinct (case, output)")
     design_ref = "DESIGN.md 4 C03"
     technique = ("Coq proof over all keys (any name, any label list) about a hand-written arm-by-arm model of PartialEq/Ord/Hash for Key; "
@@ -119,10 +121,12 @@ class C03(Prop):
         # r == 15: identical
         return [name, ls[:40]]
 
-    def _dress(self, rng, key):
+    def _dress(self, rng, key, pooled=False):
         name, ls = key
-        fl = lambda: rng.pick("soa")
-        uniform = rng.pick("soa") if rng.chance(1, 3) else None
+        # "P" = placeholder for a sub-slice of the case's static buffer (resolved by _place); "A" = case-wide shared Arc
+        kinds = "PPPPPsoOaA" if pooled else "sssooOaaA"
+        fl = lambda: rng.pick(kinds)
+        uniform = rng.pick(kinds) if rng.chance(1, 3) else None
         labs = [[hx(k), uniform or fl(), hx(v), uniform or fl()] for k, v in ls]
         # split into constructor labels + with_extra_labels chunks
         chunks = [labs]
@@ -137,6 +141,125 @@ class C03(Prop):
         ctor = rng.pick(pool)
         ops = "".join(rng.pick("ch") for _ in range(rng.weighted([(5, 0), (3, 1), (2, 2), (1, 3)])))
         return dict(ctor=ctor, name=hx(name), nf=uniform or fl(), chunks=chunks, ops=ops)
+
+    # ---- shared storage: one static text buffer and one static label slice per case
+    @staticmethod
+    def _strings(case):
+        """every [container, index-of-content, index-of-flavour] of the case (names, labels, pool labels)"""
+        out = []
+        for k in case["keys"]:
+            out.append((k, "name", "nf"))
+            for ch in k["chunks"]:
+                for l in ch:
+                    out += [(l, 0, 1), (l, 2, 3)]
+        for l in case.get("lpool") or []:
+            out += [(l, 0, 1), (l, 2, 3)]
+        return out
+
+    def _place(self, rng, case):
+        """resolve "P" flavours to slices p<off>/q<off> of ONE buffer, preferring a start address already used by a
+        string of another length (equal start / different length), and keeping repeats of the same text at different
+        addresses; build the case's static label slice and point constructor label lists into it"""
+        keys = case["keys"]
+        if rng.chance(1, 2):
+            pool, order = [], sorted(range(len(keys)), key=lambda i: -len(keys[i]["chunks"][0]))
+            for i in order:
+                k = keys[i]
+                c0 = [(l[0], l[2]) for l in k["chunks"][0]]
+                if not c0:
+                    if pool and rng.chance(1, 4):
+                        a = rng.below(len(pool) + 1)
+                        k["lp"] = [a, a]
+                    continue
+                if not rng.chance(3, 4):
+                    continue
+                pc = [(l[0], l[2]) for l in pool]
+                at = next((a for a in range(len(pc) - len(c0) + 1) if pc[a:a + len(c0)] == c0), None)
+                if at is None:
+                    at = len(pool)
+                    pool += [list(l) for l in k["chunks"][0]]
+                k["lp"] = [at, at + len(c0)]
+            if pool:
+                case["lpool"] = pool
+        slots = [x for x in self._strings(case) if x[0][x[2]] == "P"]
+        texts = [unhx(x[0][x[1]]) for x in slots]
+        distinct = rng.shuffle(sorted({t for t in texts if t}))
+        parts = list(distinct)
+        for t in distinct:
+            if rng.chance(1, 3):
+                parts.insert(rng.below(len(parts) + 1), t)      # the same text at a second address
+        if rng.chance(1, 3):
+            parts.insert(0, b"k")
+        buf = b"".join(parts)
+        bounds = [i for i in range(len(buf) + 1) if i == len(buf) or (buf[i] & 0xC0) != 0x80]
+        used = {}
+        for x, t in sorted(zip(slots, texts), key=lambda p: -len(p[1])):
+            if t:
+                cands, i = [], buf.find(t)
+                while i >= 0:
+                    cands.append(i)
+                    i = buf.find(t, i + 1)
+            else:
+                cands = bounds
+            pref = [o for o in cands if any(n != len(t) for n in used.get(o, ()))]
+            off = rng.pick(pref) if pref and rng.chance(2, 3) else rng.pick(cands)
+            used.setdefault(off, set()).add(len(t))
+            x[0][x[2]] = "%s%d" % (rng.pick("pq"), off)
+        case["buf"] = buf.hex()
+        return case
+
+    @staticmethod
+    def _normalise(case):
+        """after shrinking: a pooled flavour whose slice no longer holds the text becomes owned, a label-slice
+        reference whose contents no longer match is dropped"""
+        import copy
+        case = copy.deepcopy(case)
+        buf = unhx(case.get("buf") or "")
+        for box, ci, fi in C03._strings(case):
+            f = box[fi]
+            if f[0] in "pqP":
+                t = unhx(box[ci])
+                off = int(f[1:]) if f[1:] else -1
+                if off < 0 or buf[off:off + len(t)] != t or off + len(t) > len(buf):
+                    box[fi] = "o"
+        pool = [(l[0], l[2]) for l in case.get("lpool") or []]
+        for k in case["keys"]:
+            if k.get("lp"):
+                a, b = k["lp"]
+                if pool[a:b] != [(l[0], l[2]) for l in k["chunks"][0]] or b > len(pool):
+                    k.pop("lp")
+        return case
+
+    def _directed(self):
+        """storage-independence family: two keys that differ in exactly one string (name, a label name or a label
+        value), the two variants being slices with the SAME start address and different lengths of one static buffer
+        (incl. the empty prefix), or the same text at two addresses; plus an owned copy of the first key; and keys
+        whose constructor labels are sub-slices &Q[0..i], &Q[0..j], &Q[1..j] of one static label slice"""
+        out = []
+        base = [("region", "eu"), ("az", "1"), ("host", "h7"), ("svc", "api"), ("v", "2"), ("x", ""), ("y", "0"), ("z", "9")]
+        def lab(k, v, kf="s", vf="o"):
+            return [hx(k), kf, hx(v), vf]
+        for nl in (0, 1, 2, 3, 8):
+            for short, long_ in (("req", "req_total"), ("", "r"), ("é", "éé"), ("req", "req")):
+                for pos in ["name"] + [(i, j) for i in sorted({0, nl - 1}) if 0 <= i < nl for j in (0, 2)]:
+                    buf = (long_ + "|" + long_).encode()
+                    second = len(long_.encode()) + 1
+                    def key(text, off, ctor, owned=False):
+                        f = "o" if owned else "%s%d" % ("p" if ctor == "S" else "q", off)
+                        ls = [lab(k, v) for k, v in base[:nl]]
+                        k = dict(ctor=ctor, name=hx("m"), nf="s", chunks=[ls], ops="")
+                        if pos == "name":
+                            k["name"], k["nf"] = hx(text), f
+                        else:
+                            ls[pos[0]][pos[1]], ls[pos[0]][pos[1] + 1] = hx(text), f
+                        return k
+                    offb = second if short == long_ else 0        # same text: second address; prefix: same start
+                    out.append(dict(buf=buf.hex(), keys=[key(short, 0, "S"), key(long_, offb, "P"), key(short, 0, "F", owned=True)]))
+        pool = [lab(k, v, "s", "s") for k, v in base[:5]]
+        for (a, b), (c, d) in (((0, 2), (0, 3)), ((0, 3), (1, 3)), ((0, 1), (0, 2)), ((0, 4), (0, 5)), ((2, 2), (2, 3)), ((0, 3), (0, 3))):
+            mk = lambda a, b, ctor: dict(ctor=ctor, name=hx("m"), nf="s", chunks=[[list(l) for l in pool[a:b]]], ops="", lp=[a, b])
+            out.append(dict(lpool=[list(l) for l in pool], buf="", keys=[mk(a, b, "S"), mk(c, d, "L"), mk(a, b, "P")]))
+        return out
 
     def _exhaustive(self, n):
         """all unordered pairs of 2-label lists over {a,b}x{0,1}, then of 3-label lists over {(a,0),(a,1),(b,0)}"""
@@ -158,6 +281,9 @@ class C03(Prop):
     def gen(self, rng, n):
         cases = self._exhaustive(n)
         self.stats = dict(exhaustive_small_pairs=len(cases), label_counts={}, ctors={}, keys=0)
+        if n >= 500:
+            cases += self._directed()
+        self.stats["directed_storage_cases"] = len(cases) - self.stats["exhaustive_small_pairs"]
         n -= len(cases)
         for _ in range(n):
             cnt = rng.weighted(COUNTS)
@@ -175,7 +301,29 @@ class C03(Prop):
                 else:
                     keys.append(self._mutate(rng, rng.pick(keys)))
             keys = rng.shuffle(keys)
-            cases.append(dict(keys=[self._dress(rng, k) for k in keys]))
+            if rng.chance(1, 2):
+                # shared-storage mode: strings are slices of one static buffer, label lists slices of one static slice
+                cases.append(self._place(rng, dict(keys=[self._dress(rng, k, pooled=True) for k in keys])))
+            else:
+                cases.append(dict(keys=[self._dress(rng, k) for k in keys]))
+        st = self.stats
+        st.update(cases_with_shared_buffer=0, cases_with_same_start_different_length=0, cases_with_same_text_two_addresses=0, keys_on_shared_label_slice=0)
+        for c in cases:
+            if "buf" in c or "lpool" in c:
+                st["cases_with_shared_buffer"] += 1
+                pl = {}
+                for box, ci, fi in self._strings(c):
+                    if box[fi][0] in "pq":
+                        pl.setdefault(int(box[fi][1:]), set()).add(box[ci])
+                if any(len(v) > 1 for v in pl.values()):
+                    st["cases_with_same_start_different_length"] += 1
+                inv = {}
+                for off, ts in pl.items():
+                    for t in ts:
+                        inv.setdefault(t, set()).add(off)
+                if any(len(v) > 1 and t for t, v in inv.items()):
+                    st["cases_with_same_text_two_addresses"] += 1
+                st["keys_on_shared_label_slice"] += sum(1 for k in c["keys"] if k.get("lp"))
         for c in cases:
             for k in c["keys"]:
                 nl = sum(len(ch) for ch in k["chunks"])
@@ -191,6 +339,9 @@ class C03(Prop):
             ctx["coverage"]["exhaustive_small_pairs"] = st["exhaustive_small_pairs"]
             ctx["coverage"]["keys_by_label_count"] = {str(k): v for k, v in sorted(st["label_counts"].items())}
             ctx["coverage"]["keys_by_constructor"] = dict(sorted(st["ctors"].items()))
+            for f in ("directed_storage_cases", "cases_with_shared_buffer", "cases_with_same_start_different_length",
+                      "cases_with_same_text_two_addresses", "keys_on_shared_label_slice"):
+                ctx["coverage"][f] = st.get(f, 0)
         return self.memo_race(ctx)
 
     # ------------------------------------------------------------------ memo race (schedule replay)
@@ -247,12 +398,26 @@ class C03(Prop):
         return []
 
     # ------------------------------------------------------------------ implementation side
+    @staticmethod
+    def _tok(fl, h):
+        if fl[0] in "pq":
+            return "%s%d.%d" % (fl[0], int(fl[1:]), len(h) // 2)
+        return fl + h
+
     def impl_line(self, c):
+        lab = lambda l: "%s:%s" % (self._tok(l[1], l[0]), self._tok(l[3], l[2]))
         ks = []
         for k in c["keys"]:
-            chunks = ";".join(",".join("%s%s:%s%s" % (l[1], l[0], l[3], l[2]) for l in ch) for ch in k["chunks"])
-            ks.append("%s %s%s %s L%s" % (k["ctor"], k["nf"], k["name"], k["ops"] or "-", chunks))
-        return " | ".join(ks)
+            chunks = ";".join(",".join(lab(l) for l in ch) for ch in k["chunks"])
+            lp = " @%d.%d" % tuple(k["lp"]) if k.get("lp") else ""
+            ks.append("%s %s %s L%s%s" % (k["ctor"], self._tok(k["nf"], k["name"]), k["ops"] or "-", chunks, lp))
+        head = ""
+        if "buf" in c or c.get("lpool"):
+            head = "B%s" % (c.get("buf") or "")
+            if c.get("lpool"):
+                head += " Q" + ",".join(lab(l) for l in c["lpool"])
+            head += " || "
+        return head + " | ".join(ks)
 
     def parse_out(self, c, line):
         if line.startswith("panic"):
@@ -320,6 +485,17 @@ class C03(Prop):
         return [c, out]
 
     def shrink(self, c):
+        extra = {f: c[f] for f in ("buf", "lpool") if f in c}
+        cands = [dict(x, **extra) for x in self._shrink0(c)]
+        for i, k in enumerate(c["keys"]):
+            if k.get("lp"):
+                nk = {f: v for f, v in k.items() if f != "lp"}
+                cands.append(dict(c, keys=c["keys"][:i] + [nk] + c["keys"][i + 1:]))
+        if extra:
+            cands = [self._normalise(x) for x in cands]
+        return cands
+
+    def _shrink0(self, c):
         keys = c["keys"]
         cands = []
         if len(keys) > 1:
